@@ -191,9 +191,11 @@ class SRowList(Model):
                     rg = lambda s: z3.Select(arr, s)
                     w = row.length
                 elif isinstance(row, SArr) and row.rank == 1:
-                    g0 = row.get
-                    rg = lambda s: to_real(g0((s,)))
+                    # the list holds a REFERENCE: contents are read when the list is read, so a
+                    # row that is later mutated in place (an integrator buffer) changes with it
+                    rg = lambda s: to_real(row.get((s,)))
                     w = row.shape[0]
+                    self.on_append(it_, row)
                 else:
                     raise Unsupported("append of %r to a row list" % (row,))
                 if self.width is None:
@@ -206,11 +208,76 @@ class SRowList(Model):
             return Builtin('list.append', app)
         raise Unsupported("list method %s on SRowList" % name)
 
+    def on_append(self, it, row):
+        pass
+
     def fresh_like(self, it, hint):
         n = it.ctx.fresh_int(hint + "_len")
         it.ctx.assume(n >= 0)
         f = it.ctx.fresh_func(hint, z3.IntSort(), z3.IntSort(), z3.RealSort())
         return SRowList(n, self.width, lambda m, s: f(m, s))
+
+
+class OwnedRowList(SRowList):
+    """row list that tracks whether a row IS a watched mutable buffer (aliasing): alias(m) is a
+    z3 predicate; a havocked list may alias the buffer anywhere unless the invariant excludes it"""
+
+    def __init__(self, length, width, get, watch, alias):
+        SRowList.__init__(self, length, width, get)
+        self.watch = watch          # the SArr whose in-place mutation matters
+        self.alias = alias          # callable(m) -> z3 Bool
+        base = self.get
+
+    def contents(self, m, s):
+        return z3.If(self.alias(m), to_real(self.watch.get((s,))), self.get(m, s))
+
+    def row(self, m):
+        return SArr((self.width,), (lambda m_: (lambda o: self.contents(m_, o[0])))(m))
+
+    def rewatch(self, new_buf):
+        """the watched buffer's owner was dropped (no reference to it remains): rows that alias it
+        keep its final contents and count as owned; from now on `new_buf` is the live buffer"""
+        if new_buf is self.watch:
+            return
+        oldw, olda, oldg = self.watch, self.alias, self.get
+        self.get = lambda m, s: z3.If(olda(m), to_real(oldw.get((s,))), oldg(m, s))
+        self.alias = lambda m: z3.BoolVal(False)
+        self.watch = new_buf
+
+    def on_append(self, it, row):
+        old, L = self.alias, to_num(self.length)
+        is_alias = row is self.watch
+        self.alias = lambda m: z3.If(m == L, z3.BoolVal(is_alias), old(m))
+
+    def fresh_like(self, it, hint):
+        n = it.ctx.fresh_int(hint + "_len")
+        it.ctx.assume(n >= 0)
+        f = it.ctx.fresh_func(hint, z3.IntSort(), z3.IntSort(), z3.RealSort())
+        a = it.ctx.fresh_func(hint + "_alias", z3.IntSort(), z3.BoolSort())
+        return OwnedRowList(n, self.width, lambda m, s: f(m, s), self.watch, lambda m: a(m))
+
+
+class SOpaqueList(Model):
+    """a python list whose contents no contract talks about (only append / len are used)"""
+    tags = frozenset({'list'})
+
+    def __init__(self, length=0):
+        self.length = length
+
+    def py_len(self, it):
+        return self.length
+
+    def py_getattr(self, it, name):
+        if name == 'append':
+            def app(it_, a, k):
+                self.length = z3.simplify(to_num(self.length) + 1)
+            return Builtin('list.append', app)
+        raise Unsupported("list method %s on an opaque list" % name)
+
+    def fresh_like(self, it, hint):
+        n = it.ctx.fresh_int(hint + "_len")
+        it.ctx.assume(n >= 0)
+        return SOpaqueList(n)
 
 
 class PropertyProxy(Model):
@@ -622,6 +689,11 @@ def as_array(it, v, dtype=None):
             raise Unsupported("np.array of list of %r" % (probe,))
         el = v.element
         return SArr((v.length,), lambda o: to_num(el(o[0])), 'int' if n.is_int() else 'real')
+    if isinstance(v, OwnedRowList):
+        wg, al, gf = v.watch.get, v.alias, v.get     # np.array copies the data as it is now
+        return SArr((v.length, v.width), lambda o: z3.If(al(o[0]), to_real(wg((o[1],))), gf(o[0], o[1])), 'real')
+    if isinstance(v, SOpaqueList):
+        return fresh_array(it, 'opaque', (v.length,))
     if isinstance(v, SRowList):
         g = v.get
         if v.width is None:
